@@ -118,6 +118,23 @@ def _configs(tier):
     for w in range(1, 4 if T else 3):
         for m in range(1 << (1 << w)):
             A({'block': 'SumOfMinterms', 'w': w, 'minterms': '+'.join(str(i) for i in range(1 << w) if (m >> i) & 1)})
+    # the helper functions (py4hw.helper.LogicHelper.hw_*): an alternative way to the same blocks
+    for fn, (sig, _) in sorted(logic.HELPERS.items()):
+        for w in ((1, 2, 3) if T else (1, 2)):
+            if sig == 'ak':
+                signed = 'signed' in fn
+                ks = range(-(1 << (w - 1)), 1 << (w - 1)) if signed else range(0, 1 << w)
+                for k in ks:
+                    A({'block': 'Helper', 'fn': fn, 'w': w, 'k': k})
+            elif sig == 'list':
+                for n in (1, 2, 3, 5):
+                    A({'block': 'Helper', 'fn': fn, 'w': w, 'n': n})
+            elif sig == 'aud':
+                for down in range(w):
+                    for up in range(down, w):
+                        A({'block': 'Helper', 'fn': fn, 'w': w, 'up': up, 'down': down})
+            else:
+                A({'block': 'Helper', 'fn': fn, 'w': w})
     for w in range(1, 5 if T else 4):
         # negative constants denote their two's-complement pattern (the convention of Wire.put and Constant)
         for v in list(range(1 << w)) + [-1, -(1 << (w - 1))] + ([-2] if w > 1 else []):
@@ -200,6 +217,9 @@ def _inbits(d):
         return n + w
     if b == 'SelectDefault':
         return n * (w + 1) + w
+    if b == 'Helper':
+        sig = logic.HELPERS[d['fn']][0]
+        return {'a': w, 'ak': w, 'aud': w, 'ab': 2 * w, 'abc': 3 * w, 'abcd': 4 * w, 'sab': 2 * w + 1, 'list': n * w}[sig]
     if b in ('PriorityEncoder', 'Minterm'):
         return n
     if 'wa' in d:
@@ -235,6 +255,37 @@ def build(d):
 
     w = d.get('w', 1)
     n = d.get('n', 1)
+    if b == 'Helper':
+        # the same functionality reached through the convenience functions of py4hw.helper.LogicHelper
+        from py4hw.helper import LogicHelper
+        hlp = LogicHelper(hw)
+        fn, k = d['fn'], d.get('k')
+        sig = logic.HELPERS[fn][0]
+        try:
+            if sig == 'a':
+                r = getattr(hlp, fn)(I('a', w))
+            elif sig == 'ab':
+                r = getattr(hlp, fn)(I('a', w), I('b', w))
+            elif sig == 'ak':
+                r = getattr(hlp, fn)(I('a', w), k)
+            elif sig == 'abc':
+                r = getattr(hlp, fn)(I('a', w), I('b', w), I('c', w))
+            elif sig == 'abcd':
+                r = getattr(hlp, fn)(I('a', w), I('b', w), I('c', w), I('d', w))
+            elif sig == 'list':
+                r = getattr(hlp, fn)(IL('in', n, w))
+            elif sig == 'sab':
+                r = getattr(hlp, fn)(I('sel'), I('a', w), I('b', w))
+            elif sig == 'aud':
+                r = getattr(hlp, fn)(I('a', w), d['up'], d['down'])
+            else:
+                raise ValueError(sig)
+        except Exception as e:
+            core.reset_prepared()
+            raise Rejected('%s: %s' % (type(e).__name__, e))
+        d['_rw'] = r.getWidth()
+        outs.append(('r', r))
+        return hw, ins, outs
     cls = getattr(py4hw, b)
     if b in ('And', 'Or', 'Xor', 'Nor'):
         args = (IL('in', n, w), O('r', w))
